@@ -8,6 +8,7 @@ Proof.
   split; cbn.
   - intros st H. by destruct st.
   - done.
+  - intros st st' H. destruct st; inversion H; by subst.
   - intros st st' act H Hn. destruct st; inversion H; subst; congruence.
   - by intros [].
   - done.
